@@ -1219,8 +1219,21 @@ func runC20(ctx *Ctx, idx int) {
 	starts := pickStarts(r, qs, 3)
 
 	// ---- 1a. build must not modify keys / values / options (accepted and rejected input)
-	for pass := 0; pass < 2; pass++ {
+	for pass := 0; pass < 3; pass++ {
 		inKeys := deepCopyKeys(keys)
+		pvals := vals
+		if pass == 2 {
+			// a third kind of input: keys that share more than a step can count
+			// (refused with ErrKeyTooLong unless inner prefixes are stored) - an
+			// error path of its own, or whatever is done instead of failing
+			if idx%4 != 3 || n < 3 {
+				break
+			}
+			run := strings.Repeat("x", []int{32768, 33000, 70000}[(idx/4)%3])
+			inKeys = []string{"a" + run + "1", "a" + run + "2", "b"}
+			pvals = vals.Prefix(3)
+			ctx.Count("over_long_builds_snapshotted", 1)
+		}
 		if pass == 1 {
 			if n < 2 {
 				break
@@ -1236,11 +1249,15 @@ func runC20(ctx *Ctx, idx int) {
 			}
 		}
 		snapKeys := deepCopyKeys(inKeys)
-		inVals := vals.Slice()
-		snapVals := vals.Slice() // independent deep copy
+		inVals := pvals.Slice()
+		snapVals := pvals.Slice() // independent deep copy
 		opt := o.Opt()
 		if r.Chance(1, 3) {
 			opt, _ = triOpt(r.Intn(81))
+		}
+		if pass == 2 && r.Bool() {
+			// spelled out, inner prefixes explicitly off
+			opt = trie.Opt{DedupValue: trie.Bool(r.Bool()), InnerPrefix: trie.Bool(false), LeafPrefix: trie.Bool(r.Bool()), Complete: trie.Bool(false)}
 		}
 		ptrs := []*bool{opt.DedupValue, opt.InnerPrefix, opt.LeafPrefix, opt.Complete}
 		pointees := []bool{}
@@ -1282,6 +1299,9 @@ func runC20(ctx *Ctx, idx int) {
 		}
 		if pass == 0 && err != nil {
 			viol("build-error", map[string]interface{}{"error": err.Error()})
+		}
+		if pass == 2 {
+			ctx.Count(fmt.Sprintf("over_long_build_refused:%v", err != nil), 1)
 		}
 		if pass == 1 && err == nil {
 			ctx.Count("note:rejected-input-was-accepted", 1) // C08's business
@@ -1367,23 +1387,57 @@ func runC20(ctx *Ctx, idx int) {
 	// it may fail, it must not write.
 	if n > 0 && idx%3 == 0 {
 		size := r.Range(2, 9)
+		// every other block is sized by its total: a payload of a few KiB up to
+		// a few hundred KiB, whatever the number of keys
+		if idx%2 == 1 {
+			size = []int{4200, 9000, 70000, 300000}[(idx/6)%4]/n + 2
+			if size > 3000 {
+				size = 3000
+			}
+		}
 		block := r.Bytes(n*size + 16)
 		keepBlock := append([]byte{}, block...)
 		bvals := make([][]byte, n)
+		short := false
 		for i := range bvals {
 			l := size
 			if idx%6 == 0 && r.Chance(1, 3) {
 				l = r.Intn(size) // shorter than the fixed size
+				short = true
 			}
+			// plain two-index slicing: the capacity of every value reaches to
+			// the end of the block, over all the values behind it
 			bvals[i] = block[i*size : i*size+l]
 		}
-		try(func() { trie.NewSlimTrie(encode.Bytes{Size: size}, keys, bvals, o.Opt()) })
+		var bst *trie.SlimTrie
+		var berr error
+		bpv, _ := try(func() { bst, berr = trie.NewSlimTrie(encode.Bytes{Size: size}, keys, bvals, o.Opt()) })
 		if !bytes.Equal(block, keepBlock) {
 			p := 0
 			for block[p] == keepBlock[p] {
 				p++
 			}
 			viol("value-block-modified", map[string]interface{}{"what": "values were windows of one block; the build wrote into the block", "first_diff_at": p, "value_size": size, "with_short_values": idx%6 == 0})
+		} else if !short && bpv == nil && berr == nil && bst != nil {
+			// ... and the caller goes on to reuse its block for the next batch
+			bqs := qs[:min(len(qs), 120)]
+			before := digestAll(bst, bqs, starts)
+			for how := 0; how < 2; how++ {
+				scribble(block, how*2, r)
+				after := digestAll(bst, bqs, starts)
+				if which := before.diff(after, true); which != "" {
+					viol("value-buffer-retained", map[string]interface{}{"component": which, "shape": "windows of one block", "value_size": size, "payload_bytes": n * size,
+						"what": "overwriting the caller's value block after NewSlimTrie returned changed what the trie answers"})
+					break
+				}
+			}
+			ctx.Count("value_blocks_overwritten_after_build", 1)
+			if n*size >= 4096 {
+				ctx.Count("value_blocks_overwritten_after_build:4KiB+", 1)
+			}
+			if n*size >= 65536 {
+				ctx.Count("value_blocks_overwritten_after_build:64KiB+", 1)
+			}
 		}
 		ctx.Count("value_blocks_compared", 1)
 	}
@@ -1648,7 +1702,7 @@ func init() {
 		NumCases:      c20NumCases,
 		Run:           runC20,
 		MinNontrivial: func(tier string) int { return 200 },
-		Gates: shapeGates("builds_snapshotted", "builds_with_caller_owned_option_slice", "value_buffer_overwrites_checked", "value_blocks_compared", "failed_loads_buffer_compared", "value_buffer_shape:1", "value_buffer_shape:2", "value_buffer_shape:3", "marshal_outputs_kept_alive", "input_overwrites_checked", "output_overwrites_checked", "guarded_streams", "guarded_key_sets", "layout:current", "layout:0.5.10", "layout:3sec",
+		Gates: shapeGates("builds_snapshotted", "builds_with_caller_owned_option_slice", "value_buffer_overwrites_checked", "value_blocks_compared", "value_blocks_overwritten_after_build:4KiB+", "value_blocks_overwritten_after_build:64KiB+", "over_long_builds_snapshotted", "failed_loads_buffer_compared", "value_buffer_shape:1", "value_buffer_shape:2", "value_buffer_shape:3", "marshal_outputs_kept_alive", "input_overwrites_checked", "output_overwrites_checked", "guarded_streams", "guarded_key_sets", "layout:current", "layout:0.5.10", "layout:3sec",
 			"0510_streams_with_prefixes_to_reencode"),
 		Assumptions: []string{"retaining references to key strings is not forbidden by the statement; key memory is only write-protected", "debug.SetPanicOnFault turns SIGSEGV on the guarded mappings into recoverable panics (verified in selftest)"},
 	})
